@@ -121,7 +121,7 @@ GEN_MODS = {
     "C01": ["Fast", "Realloc"], "C02": ["Realloc"], "C03": ["Details"], "C04": ["Arith", "Fast", "Realloc"],
     "C06": ["Limit"], "C07": ["Limit", "Details"], "C08": ["Limit", "Details"],
     "C09": ["Arith", "Fast", "Details", "Realloc"], "C10": ["Footer"], "C11": ["Footer", "Realloc"], "C12": ["Realloc"],
-    "C18": ["Details", "Fast", "Limit"], "C19": ["Arith", "Details"], "C20": ["Footer"],
+    "C13": ["RawVec"], "C18": ["Details", "Fast", "Limit", "RawVec"], "C19": ["Arith", "Details", "RawVec"], "C20": ["Footer"],
 }
 for _p, _ms in GEN_MODS.items():
     if _p not in SPECS:
